@@ -704,6 +704,22 @@ func c17Isolation(c *h.Ctx) {
 			}
 		}
 	}
+	// a parked table is quiet only once its open has finished publishing (the first request can be visible a moment
+	// before the last notification of the open): wait until no table's update serial has moved for 5 ms
+	for stable, last, tries := 0, int64(-1), 0; stable < 10 && tries < 4000; tries++ {
+		var sum int64
+		for _, id := range ids {
+			if e, err := m.GetTableEngine(id); err == nil {
+				sum += e.GetTable().UpdateSerial
+			}
+		}
+		if sum == last {
+			stable++
+		} else {
+			stable, last = 0, sum
+		}
+		time.Sleep(500 * time.Microsecond)
+	}
 	snap := func() map[string][]byte {
 		out := map[string][]byte{}
 		for _, id := range ids {
